@@ -381,9 +381,10 @@ def twoWrites (cfg : Cfg) (n : Node) (s : Nat) : Bool :=
   decide ((checkTimeouts cfg n (some s)).1.hist.length + 2 ≤ (step cfg n (.complete s)).1.hist.length)
 
 /-- the store between the two writes of a CommissioningComplete of the history: the store at the
-boundary before it with one fabric record written -/
+boundary before it with the record written that the node holds for the fabric of the completing session -/
 def MidCommit (cfg : Cfg) (all : List Op) (kv : KV) : Prop :=
   ∃ pre s f, (pre ++ [.complete s]) <+: all ∧ KV.Same kv ((run cfg {} pre).kv.putFabric f) ∧
+    (∃ mode, cmdMode cfg (run cfg {} pre) s = some mode ∧ getFabric (proOf cfg (run cfg {} pre) s) mode.fab = some f) ∧
     twoWrites cfg (run cfg {} pre) s = true
 
 theorem crash_aux (cfg : Cfg) (all : List Op) (hno : Op.freset ∉ all) :
@@ -408,12 +409,12 @@ theorem crash_aux (cfg : Cfg) (all : List Op) (hno : Op.freset ∉ all) :
     rw [hrun] at hk
     have hpre : pre <+: all := ⟨op :: r, hp⟩
     have hpre' : (pre ++ [op]) <+: all := ⟨r, hp'⟩
-    rcases step_snaps cfg (run cfg {} pre) op hop kv hk with h1 | h1 | h1 | ⟨s, hs, ⟨f, h1⟩, hlen⟩
+    rcases step_snaps cfg (run cfg {} pre) op hop kv hk with h1 | h1 | h1 | ⟨s, hs, ⟨f, s1, hg1, hgf, h1⟩, hlen⟩
     · exact h kv h1
     · exact Or.inl ⟨pre, hpre, h1⟩
     · exact Or.inl ⟨pre ++ [op], hpre', by rw [hrun]; exact h1⟩
     · subst hs
-      exact Or.inr ⟨pre, s, f, hpre', h1, by simp [twoWrites, hlen]⟩
+      exact Or.inr ⟨pre, s, f, hpre', h1, ⟨s1.mode, by unfold cmdMode proOf; rw [hg1]; rfl, hgf⟩, by simp [twoWrites, hlen]⟩
 
 /-- **Every crash point.**  For every history without factory reset - any commands, any sessions,
 store faults at any write, restarts and earlier crashes included - every element of the store
